@@ -1242,6 +1242,55 @@ theorem copyObs_preserves (k : Rep) (base : St) (O : Nat) (om : Tab3) (s : St) (
           simpa [rowOf, List.map_map, Function.comp_def] using this
       · cases h
 
+/-- the sparse test accepts every strictly valid row (it is complete for the dense notion, sound only up to −tol) -/
+theorem isProbSparse_complete (row : List XRat) (h : RowDist 0 tol row) : isProbSparse row = true := by
+  obtain ⟨qs, hrow, hge, h1, h2⟩ := h
+  subst hrow
+  have habs : (qs.map XRat.fin).map xabs = qs.map XRat.fin := by
+    rw [List.map_map]
+    apply List.map_congr_left
+    intro q hq
+    have := hge q hq
+    simp only [Function.comp, xabs_fin]
+    rw [if_neg (not_lt.2 this)]
+  have hs := (eqSmall_one_iff (sumX (qs.map XRat.fin))).2 ⟨sumQ qs, sumX_fin qs, h1, h2⟩
+  simp only [isProbSparse, habs, diffSmall, hs, Bool.not_true, Bool.or_self, Bool.not_false]
+
+/-! ## soundness of the checkers the driver evaluates on the implementation's output (L3) -/
+
+theorem inUnitB_iff (d : XRat) : inUnitB d = true ↔ DiscOK d := by
+  cases d with
+  | nan => simp [inUnitB, DiscOK]
+  | pinf => simp [inUnitB, DiscOK]
+  | ninf => simp [inUnitB, DiscOK]
+  | fin q =>
+      simp only [inUnitB, Bool.and_eq_true, decide_eq_true_eq]
+      constructor
+      · intro h; exact ⟨q, rfl, h.1, h.2⟩
+      · rintro ⟨q', hq, h0, h1⟩; cases hq; exact ⟨h0, h1⟩
+
+/-- a row that passes the driver's clause IS a distribution up to the stated slack: finite entries in [-tol, 1+tol]
+    whose sum differs from one by at most `slack` -/
+theorem rowDistB_sound (slack : Rat) (row : List XRat) (h : rowDistB slack row = true) :
+    ∃ qs : List Rat, row = qs.map .fin ∧ (∀ q ∈ qs, -tol ≤ q ∧ q ≤ 1 + tol) ∧
+      -slack ≤ sumQ qs - 1 ∧ sumQ qs - 1 ≤ slack := by
+  simp only [rowDistB, Bool.and_eq_true, List.all_eq_true] at h
+  obtain ⟨hent, hsum⟩ := h
+  cases hs : sumX row with
+  | nan => simp [hs] at hsum
+  | pinf => simp [hs] at hsum
+  | ninf => simp [hs] at hsum
+  | fin s =>
+      obtain ⟨qs, hrow, hq⟩ := sumX_eq_fin row s hs
+      subst hrow
+      refine ⟨qs, rfl, ?_, ?_⟩
+      · intro q hmem
+        have := hent (.fin q) (List.mem_map.2 ⟨q, hmem, rfl⟩)
+        simpa [Bool.and_eq_true] using this
+      · simp only [hs, absQ] at hsum
+        rw [← hq]
+        split_ifs at hsum with hneg <;> simp only [decide_eq_true_eq] at hsum <;> constructor <;> linarith
+
 /-! ## OBLIGATIONS over the generated order facts (re-opened by any reordering in the source) -/
 
 /-- in every setter of the four model classes, every `throw` precedes the first write -/
